@@ -17,6 +17,9 @@ let run (kind : string) (args : Sexp.t list) : Sexp.t =
   | "addlines", [A size; L (A "offs" :: os)] ->
     let offs = List.map (function A o -> z_of_string o | _ -> failwith "off") os in
     L (A "lines" :: List.map (fun z -> A (string_of_z z)) (add_lines (z_of_string size) offs))
+  | "sourcepos", [L (A "pairs" :: ps); L (A "ips" :: qs)] ->
+    let m = List.map (function L [A k; A v] -> (z_of_string k, z_of_string v) | _ -> failwith "pair") ps in
+    L (List.map (function A q -> A (string_of_z (source_pos m (z_of_string q))) | _ -> failwith "ip") qs)
   | "fileof", [L (A "files" :: fs); A p] ->
     let files = List.map (function L [A b; A s] -> (z_of_string b, z_of_string s) | _ -> failwith "file") fs in
     (match file_of files (z_of_string p) with
